@@ -352,7 +352,12 @@ FullObs World::observe()
     g_taps.begin_call();
     o.uuid_token = guard_str([&] {
         auto u = d.uuid();
-        return std::string(u.size() == 36 ? "uuid36" : "uuid?" + std::to_string(u.size()));
+        // the text is random; its identity is not: token = order of first appearance within this run, so that a library
+        // answering with another UUID than before (e.g. after close + load) is an observable difference
+        auto it = uuid_seen.find(u);
+        if (it == uuid_seen.end())
+            it = uuid_seen.emplace(u, (int)uuid_seen.size()).first;
+        return std::string(u.size() == 36 ? "uuid36#" : "uuid?" + std::to_string(u.size()) + "#") + std::to_string(it->second);
     });
     o.version = guard_str([&] { return d.version_name(); });
     o.directory = guard_str([&] { return d.directory(); });
